@@ -218,8 +218,14 @@ def knee_modules(prop_file):
 
 
 def lean_recheck(prop_file):
-    """thorough tier: replay the compiled declarations of the property's modules through leanchecker (independent kernel re-check)"""
-    mods = knee_modules(prop_file)
+    """thorough tier: replay the compiled declarations of the property's modules (every registered file and everything they import from this
+    project) through leanchecker (independent kernel re-check)"""
+    files = [prop_file] if isinstance(prop_file, str) else list(prop_file)
+    mods = []
+    for pf in files:
+        for m in knee_modules(pf):
+            if m not in mods:
+                mods.append(m)
     t0 = time.time()
     with lean_lock():
         p = subprocess.run(['lake', 'env', 'leanchecker'] + mods, cwd=LEAN_DIR, capture_output=True, text=True)
@@ -684,7 +690,7 @@ def run_property(mod, prop_id, tier, seed, replay=None):
             for pr in audit['problems']:
                 ctx.fail('proof', 'axiom-audit', mod.PROP_FILE, {}, pr)
             if tier == 'thorough':
-                rc_ = lean_recheck(mod.PROP_FILE)
+                rc_ = lean_recheck(getattr(mod, 'PROP_FILES', mod.PROP_FILE))
                 audit['leanchecker'] = rc_
                 if not rc_['ok']:
                     ctx.fail('proof', 'leanchecker', mod.PROP_FILE, {}, rc_['output'])
